@@ -111,9 +111,10 @@ func (fm *Frame) InputFile() *os.File {
 // ValueOutput returns a handle for writing value outputs.
 func (fm *Frame) ValueOutput() ValueOutput {
 	p := fm.ports[1]
-	if p.Chan == ClosedChan {
-		// An input-only port, like stdin or a port redirected with <. Sending
-		// to its channel would panic.
+	if p.Chan == ClosedChan || p.pipeReadEnd {
+		// An input-only port, like stdin, a port redirected with < or the
+		// reading end of a pipe (whose channel the writer closes). Sending to
+		// its channel would panic.
 		return valueOutput{nil, closedSendStop, &ErrPortDoesNotSupportValueOutput}
 	}
 	return valueOutput{p.Chan, p.sendStop, p.sendError}
